@@ -72,6 +72,10 @@ def site_checks(ck, sg, kind, x0, x, GeneratorSite):
         U = [[v[0] + Fraction(1, 10), v[3], v[4]], [v[3], v[1] + Fraction(1, 10), v[5]], [v[4], v[5], v[2] + Fraction(1, 10)]]
         tensors.append(("random", U))
     tensors.append(("allowed", group_average(sg, stab, tensors[0][1])))
+    # an allowed tensor at another scale (components of 1e-7 .. 1e-6, far below the position tolerance): still returned unchanged
+    tiny = Fraction(ck.rng.choice([1, 3, 7]), 10 ** 6)
+    if kind == "exact":
+        tensors.append(("allowed", [[v * tiny for v in r] for r in group_average(sg, stab, tensors[1][1])]))
     dim = inv_dim_exact(sg, stab)
     lines = []
     first = True
@@ -154,6 +158,25 @@ def site_checks(ck, sg, kind, x0, x, GeneratorSite):
     return None, lines
 
 
+_W = {}
+
+
+class _CaseCK:
+    def __init__(self, seed, tier):
+        import random
+
+        self.rng = random.Random(seed)
+        self.tier = tier
+
+
+def _site_worker(job):
+    num, kind, x0, x, cseed = job
+    try:
+        return site_checks(_CaseCK(cseed, _W["tier"]), _W["sgs"][num], kind, x0, x, _W["GeneratorSite"])
+    except Exception as e:  # noqa: BLE001
+        return "raised %r" % (e,), []
+
+
 def run(ck):
     import sys
 
@@ -170,18 +193,32 @@ def run(ck):
     lines, expects, owners = [], [], []
     kinds = {}
     distinct = set()
+    # the site cases are independent: evaluated in worker processes (forked after the tree under examination was imported);
+    # every case draws its input tensors from its own seed, which the replay file records
+    todo = []
     for sg, kind, x0, x, st in gen_cases(ck, sgs.SpaceGroupList, allstrata):
         if kind in ("inside", "image") and ck.tier == "quick" and ck.rng.random() < 0.5:
             continue
+        todo.append((sg, kind, x0, x, st, ck.rng.randrange(2 ** 31)))
+    _W["sgs"] = {g.number: g for g in sgs.SpaceGroupList}
+    _W["GeneratorSite"] = GeneratorSite
+    _W["tier"] = ck.tier
+    jobs = [(sg.number, kind, x0, x, cseed) for sg, kind, x0, x, st, cseed in todo]
+    try:
+        import multiprocessing
+
+        with multiprocessing.get_context("fork").Pool(processes=max(1, min(12, (os.cpu_count() or 2) - 2))) as pool:
+            results = pool.map(_site_worker, jobs, chunksize=16)
+    except Exception as e:  # noqa: BLE001  (no worker processes available: evaluate here)
+        ck.notes.append("worker pool unavailable (%r): site cases evaluated sequentially" % (e,))
+        results = [_site_worker(j) for j in jobs]
+    for (sg, kind, x0, x, st, cseed), (prob, mls) in zip(todo, results):
         ck.coverage["evaluations"] += 3
         kinds[kind] = kinds.get(kind, 0) + 1
         if st["nstab"] > 1:
             distinct.add((sg.number, tuple(map(str, x))))
-        repl = {"kind": "input", "setting": sg.number, "variant": kind, "xyz": [str(v) for v in x], "special_site": [str(v) for v in x0], "seed": ck.seed}
-        try:
-            prob, mls = site_checks(ck, sg, kind, x0, x, GeneratorSite)
-        except Exception as e:
-            prob, mls = "raised %r" % (e,), []
+        repl = {"kind": "input", "setting": sg.number, "variant": kind, "xyz": [str(v) for v in x], "special_site": [str(v) for v in x0], "seed": ck.seed,
+                "case_seed": cseed}
         if prob:
             ck.fail("site:%s:%s" % (sg.number, kind), "GeneratorSite(%s #%s, %s): %s" % (sg.short_name, sg.number, [float(v) for v in x], prob),
                     dict(repl, detail=prob))
@@ -431,6 +468,12 @@ def replay(path):
     x = [Fraction(v) for v in r["xyz"]]
     x0 = [Fraction(v) for v in r["special_site"]]
     bad = 0
+    if r.get("case_seed") is not None:
+        # first with exactly the input tensors of the run
+        prob, _l = site_checks(_CaseCK(r["case_seed"], "quick"), sg, r["variant"], x0, x, GeneratorSite)
+        if prob:
+            print("problem:", prob)
+            return 1
     for _ in range(5):
         prob, _l = site_checks(CK, sg, r["variant"], x0, x, GeneratorSite)
         if prob:
